@@ -12,6 +12,7 @@ from typing import Mapping
 from typing import TextIO
 
 from .context import RenderContext
+from .exceptions import ContextDepthError
 from .exceptions import LiquidError
 from .exceptions import LiquidInterrupt
 from .exceptions import LiquidSyntaxError
@@ -132,6 +133,14 @@ class Template:
                     if not err.template_name and err.is_located_in(node.token):
                         err.template_name = self.full_name()
                     raise
+                except RecursionError as err:
+                    # Blocks nested inside recursive partials can exhaust the
+                    # interpreter's stack before `context_depth_limit` is reached.
+                    raise ContextDepthError(
+                        "maximum recursion depth reached, possible recursive render",
+                        token=node.token,
+                        template_name=self.full_name(),
+                    ) from err
 
         return character_count
 
@@ -166,6 +175,14 @@ class Template:
                     if not err.template_name and err.is_located_in(node.token):
                         err.template_name = self.full_name()
                     raise
+                except RecursionError as err:
+                    # Blocks nested inside recursive partials can exhaust the
+                    # interpreter's stack before `context_depth_limit` is reached.
+                    raise ContextDepthError(
+                        "maximum recursion depth reached, possible recursive render",
+                        token=node.token,
+                        template_name=self.full_name(),
+                    ) from err
 
         return character_count
 
